@@ -370,6 +370,7 @@ func sameValue(in *absint.Interp, a, b absint.Value, cond absint.Node) (bool, st
 	if len(xb) != len(yb) {
 		return false, fmt.Sprintf("width %d vs %d", len(xb), len(yb))
 	}
+	yb = unifyOpaque(in, xb, yb, cond)
 	for i := range xb {
 		diff := in.D.M.And(cond, in.D.M.Xor(xb[i], yb[i]))
 		if diff != absint.False {
@@ -390,4 +391,81 @@ func fieldLeaves(f wf) []string {
 		return out
 	}
 	return []string{f.Path}
+}
+
+// unifyOpaque rewrites `want` so that every uninterpreted-function result it mentions that is, under cond,
+// applied to the same kind and the same argument bytes as one mentioned by `got` uses got's variables
+// (congruence: equal arguments give equal results). Naming of opaque results is by raw BDD ids, so two terms
+// that agree only under the path condition would otherwise look different.
+func unifyOpaque(in *absint.Interp, got, want []absint.Node, cond absint.Node) []absint.Node {
+	if in.OpaqueDesc == nil {
+		return want
+	}
+	gi, wi := in.OpaqueIDsIn(got), in.OpaqueIDsIn(want)
+	sub := map[int]absint.Node{}
+	for w := range wi {
+		if gi[w] {
+			continue
+		}
+		wt := in.OpaqueDesc[w]
+		for g := range gi {
+			if wi[g] {
+				continue
+			}
+			gt := in.OpaqueDesc[g]
+			if gt.Kind != wt.Kind || len(gt.Inputs) != len(wt.Inputs) {
+				continue
+			}
+			same := true
+			for k := range gt.Inputs {
+				if len(gt.Inputs[k]) != len(wt.Inputs[k]) {
+					same = false
+					break
+				}
+				for j := range gt.Inputs[k] {
+					ok, _ := sameValueRaw(in, gt.Inputs[k][j], wt.Inputs[k][j], cond)
+					if !ok {
+						same = false
+						break
+					}
+				}
+				if !same {
+					break
+				}
+			}
+			if same {
+				for v, n := range in.OpaqueSubst(w, g, 16) {
+					sub[v] = n
+				}
+				break
+			}
+		}
+	}
+	if len(sub) == 0 {
+		return want
+	}
+	out := make([]absint.Node, len(want))
+	for i, n := range want {
+		out[i] = in.D.M.Compose(n, sub)
+	}
+	return out
+}
+
+// sameValueRaw compares two abstract bytes bitwise under cond without opaque unification (used by it).
+func sameValueRaw(in *absint.Interp, a, b absint.Value, cond absint.Node) (bool, string) {
+	x, ok1 := a.(*absint.Bits)
+	y, ok2 := b.(*absint.Bits)
+	if !ok1 || !ok2 {
+		return false, ""
+	}
+	xb, yb := x.Bits(), y.Bits()
+	if len(xb) != len(yb) {
+		return false, ""
+	}
+	for i := range xb {
+		if in.D.M.And(cond, in.D.M.Xor(xb[i], yb[i])) != absint.False {
+			return false, ""
+		}
+	}
+	return true, ""
 }
